@@ -475,12 +475,17 @@ func TestC01(t *testing.T) {
 						}
 					}
 					o := others[rapid.IntRange(0, len(others)-1).Draw(t, "appendother")]
-					opName = fmt.Sprintf("Append %q", ints)
+					o2 := others[rapid.IntRange(0, len(others)-1).Draw(t, "appendother2")]
+					opName = fmt.Sprintf("Append %q (twice from the same receiver)", ints)
 					run = func() {
-						a, b := qf.Select(ints...), o.qf.Select(ints...)
+						// two results made from one receiver: each keeps its own rows (the receiver's storage may have room to spare)
+						a, b, b2 := qf.Select(ints...), o.qf.Select(ints...), o2.qf.Select(ints...)
 						r := a.Append(b)
 						if r.Err == nil {
 							addFrame(r, opName, newGrp())
+						}
+						if r2 := a.Append(b2); r2.Err == nil {
+							addFrame(r2, opName+" second", newGrp())
 						}
 					}
 				case op == 20 && usable && invalid: // chained error
